@@ -17,10 +17,28 @@ numerical contracts `lsmrSolve` (what `lsmr(Q.T, ones, atol=0, btol=0, maxiter=1
 `Q`; the translator checks these arguments) and `allclose`.
 
 Each generated definition is proved equal to `Total.totalEstimate` (`PGM/Model/Total.lean`) — the definition the
-C09 theorems are about — when `lsmrSolve` returns the minimum-norm least-squares solution as the model computes
-it (`Q (QᵀQ)⁺ 1`; only required for the matrices that occur in the measurement list) and `allclose` is read
-exactly.  So "unknown totals are the best linear estimate" is re-checked against what the three sources say now:
-a semantic change of any copy breaks the translation or one of these equalities.
+C09 theorems are about — under the numerical contract `Total.LsmrOK lsmrSolve allclose ms` (`Proofs/TotalGen.lean`),
+which asks, for every query matrix `Q` of the measurement list and nothing else:
+
+* if `Qᵀ v = 1` is consistent (`Total.qualifies Q`; by `qualifies_iff_consistent` below: the ones vector is in the row
+  space of `Q`), `lsmrSolve Q` is the minimum-norm solution as the model computes it (`Q (QᵀQ)⁺ 1`) — what LSMR converges
+  to from `x₀ = 0` in exact arithmetic — and `allclose ones ones = true`;
+* if it is inconsistent (difference queries, a single cell query, `[[1, 2]]`, …), `allclose (Qᵀ·lsmrSolve Q) ones =
+  false`: WHATEVER `lsmr` returns there fails the test.  Nothing is assumed about the returned vector: scipy returns the
+  least-squares solution (`0.6` for `[[1, 2]]`), the model's formula gives `1`; both are rejected and the measurement
+  is skipped, so the value is irrelevant.  (An earlier version of this file assumed `lsmrSolve Q = Q (QᵀQ)⁺ 1` for every
+  `Q` of the list, which scipy's `lsmr` violates on inconsistent systems — `LsmrOK.of_exact` keeps it as a sufficient
+  condition, `lsmrOK_exLS` is an instance it does not cover.)
+
+`np.allclose` enters only through these two clauses; its reading as exact equality is no longer assumed (a tolerance test
+satisfies `allclose ones ones`; for inconsistent systems the clause idealises "the residual of the least-squares
+solution is above the tolerance", see "outside the contracts" at the end).  So "unknown totals are the best linear
+estimate" is re-checked against what the three sources say now: a semantic change of any copy breaks the translation or
+one of these equalities.
+
+The noise scale: the equalities need NO hypothesis on `noise` — model and generated definitions form the same
+`noise² ⟨v,v⟩`, `1/var`, `est/var` over the same field, whatever `1/0` is; `noise = 0` separates both from numpy and is
+recorded at the end (the C09 optimality theorems assume `0 < noise`).
 
 Assumptions on the scalars: a field with a linear order (`[Field K] [LinearOrder K]`; the order supplies the
 decidable `=` and `<` the executable model asks for; no compatibility between order and arithmetic is needed for
@@ -46,31 +64,41 @@ variable {K : Type} [Field K] [LinearOrder K] {P : Type}
 
 /-- `inference.py`, `FactoredInference._setup`: the block is `Total.totalEstimate` -/
 theorem gen_inference (lsmrSolve : List (List K) → List K) (allclose : List K → List K → Bool)
-    (ms : List (List (List K) × List K × K × P))
-    (hl : ∀ t ∈ ms, lsmrSolve t.1 = matVec t.1 (solve (gram t.1) (List.replicate (ncols t.1) 1)))
-    (ha : ∀ a b, allclose a b = decide (a = b)) :
+    (ms : List (List (List K) × List K × K × P)) (hl : LsmrOK lsmrSolve allclose ms) :
     PGM.TotalG.estimateTotal_inference lsmrSolve allclose ms = totalEstimate (ms.map toMeas) :=
-  Total.blockOf_eq_totalEstimate lsmrSolve allclose ms hl ha
+  Total.blockOf_eq_totalEstimate lsmrSolve allclose ms hl
 
 /-- `local_inference.py`, `LocalInference._setup`: the block is `Total.totalEstimate` -/
 theorem gen_local (lsmrSolve : List (List K) → List K) (allclose : List K → List K → Bool)
-    (ms : List (List (List K) × List K × K × P))
-    (hl : ∀ t ∈ ms, lsmrSolve t.1 = matVec t.1 (solve (gram t.1) (List.replicate (ncols t.1) 1)))
-    (ha : ∀ a b, allclose a b = decide (a = b)) :
+    (ms : List (List (List K) × List K × K × P)) (hl : LsmrOK lsmrSolve allclose ms) :
     PGM.TotalG.estimateTotal_local lsmrSolve allclose ms = totalEstimate (ms.map toMeas) :=
-  Total.blockOf_eq_totalEstimate lsmrSolve allclose ms hl ha
+  Total.blockOf_eq_totalEstimate lsmrSolve allclose ms hl
 
 /-- `public_inference.py`, `estimate_total`: the function is `Total.totalEstimate` -/
 theorem gen_public (lsmrSolve : List (List K) → List K) (allclose : List K → List K → Bool)
-    (ms : List (List (List K) × List K × K × P))
-    (hl : ∀ t ∈ ms, lsmrSolve t.1 = matVec t.1 (solve (gram t.1) (List.replicate (ncols t.1) 1)))
-    (ha : ∀ a b, allclose a b = decide (a = b)) :
+    (ms : List (List (List K) × List K × K × P)) (hl : LsmrOK lsmrSolve allclose ms) :
     PGM.TotalG.estimateTotal_public lsmrSolve allclose ms = totalEstimate (ms.map toMeas) :=
-  Total.blockOf_eq_totalEstimate lsmrSolve allclose ms hl ha
+  Total.blockOf_eq_totalEstimate lsmrSolve allclose ms hl
 
-/-- the same, read from the model's side: for a list of model records (any `proj` attached) and the contracts
-instantiated by the model's own computations, all three copies compute `Total.totalOf none` -/
-theorem gen_totalOf_none (meas : List (Meas K)) (proj : Meas K → P) :
+/-- the same, read from the model's side: for a list of model records (any `proj` attached) and any `lsmr` /
+`allclose` meeting the contract on it, all three copies compute `Total.totalOf none` -/
+theorem gen_totalOf_none (lsmrSolve : List (List K) → List K) (allclose : List K → List K → Bool)
+    (meas : List (Meas K)) (proj : Meas K → P)
+    (hl : LsmrOK lsmrSolve allclose (meas.map (fun m => (m.Q, m.y, m.noise, proj m)))) :
+    let ms := meas.map (fun m => (m.Q, m.y, m.noise, proj m))
+    PGM.TotalG.estimateTotal_inference lsmrSolve allclose ms = totalOf none meas ∧
+    PGM.TotalG.estimateTotal_local lsmrSolve allclose ms = totalOf none meas ∧
+    PGM.TotalG.estimateTotal_public lsmrSolve allclose ms = totalOf none meas := by
+  intro ms
+  have hm : ms.map toMeas = meas := by
+    simp only [ms, List.map_map]
+    exact List.map_id' meas
+  have h := gen_inference lsmrSolve allclose ms hl
+  rw [hm] at h
+  exact ⟨h, h, h⟩
+
+/-- … in particular with the contracts instantiated by the model's own computations -/
+theorem gen_totalOf_none_model (meas : List (Meas K)) (proj : Meas K → P) :
     let ms := meas.map (fun m => (m.Q, m.y, m.noise, proj m))
     PGM.TotalG.estimateTotal_inference minNormSol (fun a b => decide (a = b)) ms = totalOf none meas ∧
     PGM.TotalG.estimateTotal_local minNormSol (fun a b => decide (a = b)) ms = totalOf none meas ∧
@@ -80,14 +108,40 @@ theorem gen_totalOf_none (meas : List (Meas K)) (proj : Meas K → P) :
 /-- a C09 law transported to the sources: what any of the three copies estimates is at least 1 -/
 theorem gen_total_ge_one [IsStrictOrderedRing K] (lsmrSolve : List (List K) → List K)
     (allclose : List K → List K → Bool) (ms : List (List (List K) × List K × K × P))
-    (hl : ∀ t ∈ ms, lsmrSolve t.1 = matVec t.1 (solve (gram t.1) (List.replicate (ncols t.1) 1)))
-    (ha : ∀ a b, allclose a b = decide (a = b)) :
+    (hl : LsmrOK lsmrSolve allclose ms) :
     1 ≤ PGM.TotalG.estimateTotal_inference lsmrSolve allclose ms ∧
     1 ≤ PGM.TotalG.estimateTotal_local lsmrSolve allclose ms ∧
     1 ≤ PGM.TotalG.estimateTotal_public lsmrSolve allclose ms := by
-  rw [gen_inference lsmrSolve allclose ms hl ha, gen_local lsmrSolve allclose ms hl ha,
-    gen_public lsmrSolve allclose ms hl ha]
+  rw [gen_inference lsmrSolve allclose ms hl, gen_local lsmrSolve allclose ms hl,
+    gen_public lsmrSolve allclose ms hl]
   exact ⟨C09.total_ge_one _, C09.total_ge_one _, C09.total_ge_one _⟩
+
+/-! ## the contract in mathematical terms
+
+`Total.qualifies` is the model's decision procedure (Gauss–Jordan + certificate); C09 proves it complete. -/
+
+/-- `Total.qualifies Q` says that `Qᵀ v = 1` is consistent (rectangular non-empty `Q`, ordered field) -/
+theorem qualifies_iff_consistent [IsStrictOrderedRing K] (Q : List (List K)) (hQ : Rect Q) (hne : Q ≠ []) :
+    qualifies Q = true ↔ ∃ u : List K, u.length = Q.length ∧ matTVec Q u = List.replicate (ncols Q) 1 :=
+  C09.qualifies_iff_rowspace Q hQ hne
+
+/-- the contract stated without reference to the model's elimination: on consistent systems `lsmr` returns the
+minimum-norm solution and the test accepts the exact right-hand side; on inconsistent ones the test fails -/
+theorem lsmrOK_of_consistency [IsStrictOrderedRing K] (lsmrSolve : List (List K) → List K)
+    (allclose : List K → List K → Bool) (ms : List (List (List K) × List K × K × P))
+    (hrect : ∀ t ∈ ms, Rect t.1 ∧ t.1 ≠ [])
+    (hc : ∀ t ∈ ms, (∃ u : List K, u.length = t.1.length ∧ matTVec t.1 u = List.replicate (ncols t.1) 1) →
+      lsmrSolve t.1 = minNormSol t.1 ∧
+      allclose (List.replicate (ncols t.1) 1) (List.replicate (ncols t.1) 1) = true)
+    (hi : ∀ t ∈ ms, (¬ ∃ u : List K, u.length = t.1.length ∧ matTVec t.1 u = List.replicate (ncols t.1) 1) →
+      allclose (matTVec t.1 (lsmrSolve t.1)) (List.replicate (ncols t.1) 1) = false) :
+    LsmrOK lsmrSolve allclose ms := by
+  refine ⟨fun t ht hq => ?_, fun t ht hq => ?_, fun t ht hq => ?_⟩
+  · exact (hc t ht ((qualifies_iff_consistent t.1 (hrect t ht).1 (hrect t ht).2).mp hq)).1
+  · refine hi t ht (fun h => ?_)
+    rw [(qualifies_iff_consistent t.1 (hrect t ht).1 (hrect t ht).2).mpr h] at hq
+    exact Bool.noConfusion hq
+  · exact (hc t ht ((qualifies_iff_consistent t.1 (hrect t ht).1 (hrect t ht).2).mp hq)).2
 
 /-! ## the hypotheses are satisfiable, and a concrete run over `ℚ`
 
@@ -99,11 +153,9 @@ and the single cell query `[1 0]`, which cannot express the count and is skipped
 def exMeas : List (List (List ℚ) × List ℚ × ℚ × List Nat) :=
   [([[1, 1]], [10], 1, [0]), ([[1, 0], [0, 1]], [3, 5], 2, [0]), ([[1, 0]], [4], 1, [0])]
 
-/-- the contracts of `gen_inference` / `gen_local` / `gen_public` hold for the model's own solver and the exact test -/
-example : (∀ t ∈ exMeas, (minNormSol : List (List ℚ) → List ℚ) t.1
-      = matVec t.1 (solve (gram t.1) (List.replicate (ncols t.1) 1))) ∧
-    (∀ a b : List ℚ, (fun a b => decide (a = b)) a b = decide (a = b)) :=
-  ⟨fun _ _ => rfl, fun _ _ => rfl⟩
+/-- the contract of `gen_inference` / `gen_local` / `gen_public` holds for the model's own solver and the exact test -/
+theorem lsmrOK_exMeas : LsmrOK minNormSol (fun a b : List ℚ => decide (a = b)) exMeas :=
+  LsmrOK.of_exact _ _ _ (fun _ _ => rfl) (fun _ _ => rfl)
 
 /-- all three generated definitions and the model evaluate to `88/9` on it (two measurements qualify, one does not) -/
 example :
@@ -121,7 +173,49 @@ example :
 
 /-- `gen_total_ge_one` on the example (its hypotheses hold by `rfl`) -/
 example : 1 ≤ PGM.TotalG.estimateTotal_public minNormSol (fun a b => decide (a = b)) exMeas :=
-  (gen_total_ge_one minNormSol (fun a b => decide (a = b)) exMeas (fun _ _ => rfl) (fun _ _ => rfl)).2.2
+  (gen_total_ge_one minNormSol (fun a b => decide (a = b)) exMeas lsmrOK_exMeas).2.2
+
+/-! ### a list with qualifying AND non-qualifying matrices, `lsmr` as scipy behaves, `allclose` as a tolerance test
+
+The identity (σ = 2, answers 3, 5) qualifies; `[[1, 2]]` and the difference query `[[1, -1]]` do not: `Qᵀ v = 1` is
+inconsistent and scipy's `lsmr` returns the least-squares solutions `3/5` resp. `0` — not the model's formula
+`Q (QᵀQ)⁺ 1` (`1` for both); `Qᵀ·(3/5) = [3/5, 6/5]` is not close to `[1, 1]`.  `allclose` is numpy's
+`|a − b| ≤ 1e-8 + 1e-5·|b|`, not exact equality.  The contract holds, the former hypothesis `hl` does not. -/
+
+/-- `lsmr` as scipy behaves on the three matrices of `exLS`: least-squares solutions on the two inconsistent systems -/
+def lsmrLS (Q : List (List ℚ)) : List ℚ :=
+  if Q = [[1, 2]] then [3 / 5] else if Q = [[1, -1]] then [0] else minNormSol Q
+
+/-- `np.allclose(a, b)` with the default tolerances, on lists of equal length -/
+def allcloseTol (a b : List ℚ) : Bool :=
+  a.length == b.length &&
+    (List.zipWith (fun x y => decide (|x - y| ≤ 1 / 100000000 + 1 / 100000 * |y|)) a b).all id
+
+def exLS : List (List (List ℚ) × List ℚ × ℚ × List Nat) :=
+  [([[1, 0], [0, 1]], [3, 5], 2, [0]), ([[1, 2]], [7], 1, [0]), ([[1, -1]], [-2], 1, [0])]
+
+/-- **the weakened contract is satisfiable where the old one is false**: `LsmrOK` holds for the scipy-like `lsmrLS`
+and the tolerance test on a list with one consistent and two inconsistent systems … -/
+theorem lsmrOK_exLS : LsmrOK lsmrLS allcloseTol exLS := by
+  refine ⟨?_, ?_, ?_⟩ <;> intro t ht <;>
+    simp only [exLS, List.mem_cons, List.not_mem_nil, or_false] at ht <;>
+    rcases ht with rfl | rfl | rfl <;> decide +kernel
+
+/-- … while `lsmrLS [[1, 2]] = [3/5]` is not the model's formula `[1]` (the old `hl` fails on this list), the first
+matrix qualifies and the other two do not … -/
+example : lsmrLS [[1, 2]] = [3 / 5] ∧ minNormSol ([[1, 2]] : List (List ℚ)) = [1] ∧
+    exLS.map (fun t => qualifies t.1) = [true, false, false] ∧
+    ¬ (∀ t ∈ exLS, lsmrLS t.1 = matVec t.1 (solve (gram t.1) (List.replicate (ncols t.1) 1))) := by
+  refine ⟨by decide +kernel, by decide +kernel, by decide +kernel, fun h => ?_⟩
+  have := h ([[1, 2]], [7], 1, [0]) (by simp [exLS])
+  revert this
+  decide +kernel
+
+/-- … and the three copies compute the model's value on it: only the identity is used, `3 + 5 = 8` -/
+example :
+    PGM.TotalG.estimateTotal_public lsmrLS allcloseTol exLS = totalEstimate (exLS.map toMeas) ∧
+    PGM.TotalG.estimateTotal_public lsmrLS allcloseTol exLS = 8 :=
+  ⟨gen_public _ _ _ lsmrOK_exLS, by decide +kernel⟩
 
 /-! ## outside the contracts (recorded, not hidden)
 
@@ -129,9 +223,12 @@ example : 1 ≤ PGM.TotalG.estimateTotal_public minNormSol (fun a b => decide (a
   definitions) drops that measurement from the combination, whereas numpy's `1.0/0 = inf`, `0*inf = nan`,
   `max(1, nan) = 1` makes Python return `1`.  Input `[([[1,1]], [10], 0), (I₂, [3,5], 1)]`: model and generated
   definitions give `8`, Python gives `1`.  (The C09 theorems about the estimate assume `0 < noise`.)
-* `allclose` is a tolerance test (`|a-b| ≤ 1e-8 + 1e-5|b|`), the hypothesis `ha` reads it exactly: for
-  `Q = [[1, 1.0000001]]`, `y = [10]`, `noise = 1` Python accepts the measurement (total ≈ 9.9999995), the exact
-  reading rejects it (total `1`). -/
+* `allclose` is a tolerance test (`|a-b| ≤ 1e-8 + 1e-5|b|`); the clause `LsmrOK.inconsistent` asks it to reject
+  EVERY inconsistent system, which the tolerance test does not do for nearly consistent ones: for
+  `Q = [[1, 1.0000001]]`, `y = [10]`, `noise = 1` Python accepts the measurement (total ≈ 9.9999995), the model
+  (exact test) rejects it (total `1`) — `LsmrOK` is false for that list with the real `allclose`.
+* floating point: `lsmr` with `atol = btol = 0` stops at `maxiter` or at machine precision; `consistent` reads its
+  result as the exact minimum-norm solution. -/
 
 /-- the `noise = 0` input: the exact-field reading gives `8` (Python: `nan`, hence `1`) -/
 example :
